@@ -492,6 +492,8 @@ def rewrite(body, ctx):
     b = re.sub(r'\[\[\s*(?:maybe_unused|nodiscard|fallthrough|likely|unlikely)\s*\]\]\s*;?', '', b)
     b = re.sub(r'\bnoexcept\b(?!\s*\()', '', b)
     b = re.sub(r'^[ \t]*#\s*pragma[^\n]*$', '', b, flags=re.M)
+    # preprocessor conditionals that (after dropping pragmas/comments) guard nothing
+    b = re.sub(r'^[ \t]*#\s*if[^\n]*\n(?:\s*#\s*el(?:if|se)[^\n]*\n|\s*\n)*\s*#\s*endif[^\n]*$', '', b, flags=re.M)
     for name, field in ctx.get('ptrmem', {}).items():
         b = re.sub(r'->\*\s*' + name + r'\b', '->' + field, b)
         b = re.sub(r'\.\*\s*' + name + r'\b', '.' + field, b)
@@ -526,6 +528,7 @@ def rewrite(body, ctx):
     # brace / paren initialised scalar locals and functional casts
     for t in ctx.get('scalars', []):
         b = re.sub(r'\b(' + t + r')\s+(\w+)\s*\{([^{};]*)\}\s*;', r'\1 \2 = (\3);', b)
+        b = re.sub(r'\b(' + t + r')\s+(\w+)\s*\(([^(){};]*)\)\s*;', r'\1 \2 = (\3);', b)
         b = re.sub(r'(?<![\w>.])' + t + r'\s*\(([^()]*)\)', r'((' + t + r')(\1))', b)
     b = re.sub(r'\b((?:struct\s+)?[A-Za-z_]\w*\s*\*?)\s+(\w+)\s*\{\s*([^{};]*?)\s*\}\s*;', lambda m: m.group(0) if m.group(1).strip() in ('return', 'else', 'do', 'struct') else '%s %s = (%s);' % (m.group(1), m.group(2), m.group(3) or '0'), b)
     # object methods: obj->m(a) / obj.m(a)
